@@ -24,7 +24,7 @@ from engine.cfg import call_name, cfg_of
 from engine.errors import AnalysisError
 from engine.flow import Resident
 from engine.repo import walk_no_nested
-from engine.util import calls_in, dotted, local_assignments, unparse
+from engine.util import calls_in, dotted, local_assignments, unparse, xsrc
 
 from .c01 import send_to_report_class
 from .c03 import _is_copy_expr
@@ -101,7 +101,7 @@ def run(ctx):  # noqa: C901, PLR0912, PLR0915
     ctx.ob('C04.R1', 'provider bound to the observable', len(binds) == 1,
            'SdcProvider binds _send_episodic_reports to the transaction observable of its MDIB', fi=repo.func(f'{PV}.__init__'))
     ob = repo.func('sdc11073.observableproperties.observables.ObservableProperty.__set__')
-    src = unparse(ob.node)
+    src = xsrc(ob)
     ctx.ob('C04.R1', 'observers run synchronously', 'Thread' not in src and 'submit' not in src and 'call_soon' not in src,
            'ObservableProperty.__set__ notifies its observers in the calling thread (inside the locks)', fi=ob)
     # send implementations
@@ -119,7 +119,7 @@ def run(ctx):  # noqa: C901, PLR0912, PLR0915
         if not sets:
             for cal in calls_in(sfi.node):
                 h = repo.resolve_method(sfi.cls.qual, call_name(cal) or '')
-                if h is not None and h is not sfi and 'set_mdib_version_group(mdib_version_group)' in unparse(h.node) \
+                if h is not None and h is not sfi and 'set_mdib_version_group(mdib_version_group)' in xsrc(h) \
                         and 'mdib_version_group' in [unparse(a) for a in cal.args]:
                     helper_ok = True
         ok = (bool(sets) or helper_ok) and bool(sends) and \
@@ -129,11 +129,11 @@ def run(ctx):  # noqa: C901, PLR0912, PLR0915
                f'{name}: the report gets the given version group before it is handed to the subscription manager', fi=sfi)
     # async manager blocks until sends are done
     rc = repo.func('sdc11073.provider.subscriptionmgr_async.AsyncioEventLoopThread.run_coro')
-    src = unparse(rc.node)
+    src = xsrc(rc)
     ctx.ob('C04.R1', 'async send is awaited', 'run_coroutine_threadsafe(coro, loop=self.loop).result()' in src,
            'run_coro waits for the result of the coroutine (no fire-and-forget)', fi=rc)
     asend = repo.func('sdc11073.provider.subscriptionmgr_async.BICEPSSubscriptionsManagerBaseAsync.send_to_subscribers')
-    src = unparse(asend.node)
+    src = xsrc(asend)
     bad = [x for x in ('create_task', 'ensure_future', 'call_soon', 'Thread(') if x in src]
     ctx.ob('C04.R1', 'no fire-and-forget on the async send path', not bad and 'run_coro(' in src,
            'the async send_to_subscribers gathers all sends and waits for them before returning', fi=asend, witness=bad)
@@ -143,7 +143,7 @@ def run(ctx):  # noqa: C901, PLR0912, PLR0915
     fors = [n for n in walk_no_nested(sep.node) if isinstance(n, ast.For)]
     ok = len(fors) == 1 and unparse(fors[0].iter) == sep.node.args.args[0].arg and len(fors[0].body) == 1 and \
         unparse(fors[0].body[0]).replace(' ', '') == f'lookup[{fors[0].target.id}.source_mds].append({fors[0].target.id})'
-    raises = any(isinstance(n, ast.Raise) for n in walk_no_nested(sep.node)) and 'None in lookup' in unparse(sep.node)
+    raises = any(isinstance(n, ast.Raise) for n in walk_no_nested(sep.node)) and 'None in lookup' in xsrc(sep)
     ctx.ob('C04.R2', 'partition by source MDS', ok and raises,
            '_separate_states_by_source_mds appends every state unconditionally to the list of its source MDS and refuses '
            'states without one', fi=sep)
@@ -200,7 +200,7 @@ def run(ctx):  # noqa: C901, PLR0912, PLR0915
     ctx.ob('C04.R2', 'modification types', ok,
            'updated / created / deleted descriptors are reported with UPDATE / CREATE / DELETE', fi=dm, witness=kinds)
     wf = repo.func('sdc11073.provider.porttypes.waveformserviceimpl.WaveformService.send_realtime_samples_report')
-    ctx.ob('C04.R2', 'waveform report', 'report.State.extend(realtime_sample_states)' in unparse(wf.node),
+    ctx.ob('C04.R2', 'waveform report', 'report.State.extend(realtime_sample_states)' in xsrc(wf),
            'the waveform stream carries all given sample states', fi=wf)
 
     # ------------------------------------------------------------------ R3
@@ -221,7 +221,7 @@ def run(ctx):  # noqa: C901, PLR0912, PLR0915
            'serialize_message validates the envelope and the payload, switched only by its validate parameter '
            '(default True)', fi=sm, witness=[gsm.facts_at(n) for n, _ in vals])
     mv = repo.func('sdc11073.pysoap.msgfactory.MessageFactory._validate_node')
-    ctx.ob('C04.R3', '_validate_node', 'if self._validate' in unparse(mv.node) and 'validate_node(' in unparse(mv.node),
+    ctx.ob('C04.R3', '_validate_node', 'if self._validate' in xsrc(mv) and 'validate_node(' in xsrc(mv),
            '_validate_node is gated only by the constructor flag', fi=mv)
     off = []
     n_ser = 0
